@@ -82,13 +82,23 @@ template <class T, size_t N, size_t M> struct Cfg {
     for (size_t cm = 0; cm < M; cm++) pz(P::gmp.lifting_integers[cm]);
     printf("\n");
     std::vector<Pat> pats = {cst(2), cst(1), rnd(g), mix(g)};
-    for (auto& r : big_small(g, thorough() ? 1500 : 800)) pats.push_back(r);
+    for (auto& r : big_small(g, (M > 128 && !std::is_same<T, uint32_t>::value) ? 400 : thorough() ? 1500 : 800)) pats.push_back(r);
     while (pats.size() % N) pats.push_back(rnd(g));
+    // beyond the swept range of the Lean-checked lines (M > LITE_FULL) the harness filters: every lift is checked here
+    // against the property's own statement with GMP (0 <= x < Q, x mod p_i = r_i) and only the first few lines per
+    // configuration plus EVERY line that fails that test are passed on to the driver (which then reports them)
+    const bool filter = M > 128 && !std::is_same<T, uint32_t>::value;
+    mpz_class Q(P::moduli_product());
+    size_t emitted = 0;
     for (size_t off = 0; off < pats.size(); off += N) {
       fill(a, pats, off);
       std::array<mpz_t, N> arr; init_arr(arr);
       a.poly2mpz(arr);
-      for (size_t i = 0; i < N; i++) emit_lift_line("lift", a, i, arr[i]);
+      for (size_t i = 0; i < N; i++) {
+        bool ok = mpz_sgn(arr[i]) >= 0 && mpz_cmp(arr[i], Q.get_mpz_t()) < 0;
+        for (size_t cm = 0; ok && cm < M; cm++) ok = mpz_fdiv_ui(arr[i], P::get_modulus(cm)) == a(cm, i);
+        if (!filter || !ok || emitted < 4) { emit_lift_line("lift", a, i, arr[i]); emitted++; }
+      }
       clear_arr(arr);
     }
   }
@@ -299,6 +309,11 @@ int main() {
   cfg<uint16_t, 4, 2>(g); cfg<uint32_t, 4, 3>(g); cfg<uint64_t, 4, 2>(g); cfg<uint64_t, 2, 9>(g);
   return 0;
 #endif
+#ifdef CRT_ONLY_ALL64
+  lite_range<uint64_t, 128>(g, std::make_index_sequence<436>{});
+  lite_range<uint64_t, 564>(g, std::make_index_sequence<436>{});
+  return 0;
+#endif
   cfg<uint16_t, 4, 1>(g); cfg<uint16_t, 4, 2>(g);
   cfg<uint32_t, 4, 1>(g); cfg<uint32_t, 4, 2>(g); cfg<uint32_t, 4, 3>(g); cfg<uint32_t, 4, 4>(g); cfg<uint32_t, 4, 5>(g);
   cfg<uint32_t, 2, 37>(g); cfg<uint32_t, 2, 64>(g);
@@ -310,6 +325,7 @@ int main() {
 #ifdef CRT_THOROUGH
   lite_range<uint32_t, 48>(g, std::make_index_sequence<243>{});
   lite_range<uint64_t, 24>(g, std::make_index_sequence<104>{});
+
   cfg<uint16_t, 8, 2>(g);
   cfg<uint32_t, 8, 7>(g); cfg<uint32_t, 2, 8>(g); cfg<uint32_t, 2, 16>(g); cfg<uint32_t, 2, 64>(g); cfg<uint32_t, 2, 100>(g);
   cfg<uint32_t, 2, 128>(g); cfg<uint32_t, 2, 200>(g); cfg<uint32_t, 2, 256>(g); cfg<uint32_t, 2, 290>(g); cfg<uint32_t, 2, 291>(g);
